@@ -56,12 +56,15 @@ class Model:
         self.roles = {D[k]: k for k in D if D[k] is not None}
 
     def initial(self):
-        return family.Family(self.fam, self.mode, self.support)
+        # "deep": the last class (Note) is defined by an operation of the history
+        return family.Family(self.fam, self.mode, self.support, defer=1 if self.fam == "deep" else 0)
 
     def dispose(self, f):
         f.dispose()
 
     def enabled(self, h):
+        if self.fam == "deep" and not any(op[0] == "define" for op in h):
+            return self.alphabet + [("define", "n", "Note")]
         return self.alphabet
 
     def input_for(self, op):
@@ -80,6 +83,8 @@ class Model:
         return family.run_op(f, op, self.input_for(op))
 
     def expected(self, h, op):
+        if op[0] == "define":
+            return ("ok", "defined")
         if op not in self._exp:
             twin = family.Family(self.fam, "eager", self.support)
             try:
